@@ -61,6 +61,7 @@ pub fn build(base: Instant, s: &Scn, fates: BTreeMap<u64, Fate>) -> MW {
     cfg.cid_lifetime = s.cid_lifetime_ms.map(Duration::from_millis);
     let mut w = World::new(base, Box::new(move |_, _| StdApp::new(Side::Server, Plan::default())));
     w.fates = fates;
+    w.keep_data = true;
     w.latency = cfg.latency;
     let keylog = Arc::new(mtls::KeyLog::default());
     let sc = server_config(&cfg, keylog.clone(), w.sim_time.clone());
@@ -130,7 +131,7 @@ pub fn run(base: Instant, s: &Scn, devs: &Devs, alts: &[Fate], dump: bool) -> Ou
             let all_done = m.conns.iter().enumerate().all(|(i, (n, ch))| {
                 closed.contains(&i) || m.w.slot(*n, *ch).map_or(false, |sl| sl.app.tx_complete() && sl.app.obs.connected)
             }) && (s.fourth_at.is_none() && !s.fourth_when_forgotten || fourth_done);
-            if all_done && m.w.net.is_empty() {
+            if all_done && m.w.net.is_empty() && s.close.iter().all(|(st, _)| m.w.steps > *st) {
                 break;
             }
             if m.w.steps > 40_000 {
@@ -143,15 +144,69 @@ pub fn run(base: Instant, s: &Scn, devs: &Devs, alts: &[Fate], dump: bool) -> Ou
             }
             m.w.step();
         }
-        (m, closed)
+        // ---- forgotten connections: once the server endpoint has drained a connection, none of
+        // the connection IDs that connection ever had may route anywhere. One datagram per
+        // (connection, destination CID) is presented again.
+        let mut stale = vec![];
+        {
+            let dead_serials: Vec<u64> = m.w.nodes[SERVER].dead.iter().map(|(_, sl)| sl.serial).collect();
+            let scl = m.w.nodes[SERVER].cid_len;
+            let mut first_to: BTreeMap<u64, u64> = BTreeMap::new(); // emission idx -> server serial it was handed to
+            for r in &m.w.recs {
+                if let Rec::Deliver { idx, node, to_serial: Some(ts), .. } = r {
+                    if *node == SERVER {
+                        first_to.entry(*idx).or_insert(*ts);
+                    }
+                }
+            }
+            let mut seen: std::collections::BTreeSet<(u64, Vec<u8>)> = Default::default();
+            let mut probes = vec![];
+            for r in &m.w.recs {
+                if let Rec::Emit { idx, node, src, dst, data, .. } = r {
+                    if *node == SERVER || data.is_empty() || *dst != m.w.nodes[SERVER].addr {
+                        continue;
+                    }
+                    let Some(ts) = first_to.get(idx) else { continue };
+                    if !dead_serials.contains(ts) {
+                        continue;
+                    }
+                    let (pk, _) = crate::wire::parse_datagram(data, scl);
+                    let Some(first) = pk.first() else { continue };
+                    if first.dcid.is_empty() || !seen.insert((*ts, first.dcid.clone())) {
+                        continue;
+                    }
+                    probes.push((*ts, first.dcid.clone(), *src, *dst, data.clone()));
+                }
+            }
+            for (ts, dcid, src, dst, data) in probes {
+                let mark = m.w.recs.len();
+                m.w.inject(src, dst, data, Duration::ZERO);
+                let mut g = 0;
+                while m.w.net.iter().any(|f| f.injected) && g < 50 {
+                    m.w.step();
+                    g += 1;
+                }
+                for r in &m.w.recs[mark..] {
+                    // (a replayed Initial legitimately starts a new connection attempt; only delivery
+                    // to an existing connection counts)
+                    if let Rec::Deliver { injected: true, to_serial: Some(now_to), routed: routed @ Routed::Conn(_), .. } = r {
+                        stale.push((ts, dcid.clone(), *now_to, format!("{routed:?}")));
+                    }
+                }
+            }
+        }
+        (m, closed, stale)
     });
     match r {
         Err(e) => Out { points: 0, trace: 0, viol: vec![("panic".into(), format!("panic: {e}"))], routed_checked: 0 },
-        Ok((m, closed)) => {
+        Ok((m, closed, stale)) => {
             if dump {
                 print!("{}", crate::trace::dump(&m.w));
             }
             let mut viol = vec![];
+            for (ts, dcid, now_to, routed) in &stale {
+                viol.push(("forgotten-connection-id-still-routes".into(), format!("connection node0/s{ts} has drained and was forgotten by the server endpoint, yet a datagram addressed to its connection ID {dcid:02x?} is handed to connection node0/s{now_to} ({routed})")));
+            }
             // ---- routing oracle over every Endpoint::handle call, on connection identities
             // (node, serial) that are never reused, unlike handles
             let mut emitted: BTreeMap<u64, (usize, Option<u64>, Option<ConnectionHandle>)> = BTreeMap::new();
@@ -266,6 +321,16 @@ pub fn scenarios(thorough: bool) -> Vec<Scn> {
         s.fourth_when_forgotten = true;
         s.long_delay_ms = Some(3000);
         s.window = (8, 44);
+        v.push(s);
+    }
+    // CIDs are rotated (retired at the peer's limit), then the connection closes, drains and a new
+    // one reuses its handle
+    for (cl, at) in [(8usize, 150u64), (4, 220)] {
+        let mut s = mk(&format!("rotation+close0@{at}+fourth-cid{cl}"), cl);
+        s.cid_lifetime_ms = Some(200);
+        s.close = vec![(at, 0)];
+        s.fourth_at = Some(at + 40);
+        s.window = (at.saturating_sub(10), at + 20);
         v.push(s);
     }
     let mut s = mk("cid4-close+fourth", 4);
